@@ -11,7 +11,10 @@
   * DecodeBebop (io.Reader): full strength, `C04_decode_evolved`.
   * UnmarshalBebop / MustUnmarshalBebop (byte slice): `C04_unmarshal_evolved_partial`, under the guard
     `TopStable`; `C04_nested_struct_counterexample` shows that the guard cannot be dropped (a listed finding:
-    the parent steps over a nested STRUCT by `Size()` of what it understood).
+    the parent steps over a nested STRUCT by `Size()` of what it understood).  `Size()` is the reader's
+    generated one (`gsize env1`): it leaves out the fields the reader does not know AND the fields the reader
+    marks deprecated, so the second scenario needs the guard as well
+    (`C04_deprecated_nested_struct_counterexample`).
 -/
 import Bebop.Props.Common
 import Bebop.Proofs.Evolve
@@ -50,7 +53,8 @@ theorem C04_decode_evolved_field (env1 env2 : Env) (hE1 : EnvOk env1) (hx : Exte
     PARTIAL: holds under the guard `TopStable env1 n v`.  The guard excludes exactly the values in which some
     STRUCT that is not the top-level record itself — a struct-typed struct field, array element, map value,
     message field value or union member — contains, at any depth, a message field the older schema does not
-    know (equivalently `vsize (restrict env1 (.ref m) s) ≠ vsize s` for that struct `s`).  Evolved messages
+    know or marks deprecated (precisely: `gsize env1 (.ref m) (restrict env1 (.ref m) s) ≠ vsize s` for that
+    struct `s` — the reader's `Size()` of what it decodes differs from the bytes on the wire).  Evolved messages
     that are the top-level record, or sit directly or through arrays / maps / messages / unions in a
     top-level struct, message or union without an intervening nested struct, are all covered.
     `C04_nested_struct_counterexample` shows the excluded case really fails. -/
@@ -73,6 +77,12 @@ theorem C04_unmarshal_evolved_field_partial (env1 env2 : Env) (hE1 : EnvOk env1)
     `Size()`. -/
 theorem C04_restrict_size_le (env1 : Env) (ty : Ty) (v : Val) : vsize (restrict env1 ty v) ≤ vsize v :=
   vsize_restrict_le env1 v ty
+
+/-- … and the reader's generated `Size()` of what it decodes — which in addition skips the fields the
+    reader marks deprecated — is smaller still.  This is the number in the safe variant's `max`. -/
+theorem C04_reader_size_le_wire (env1 : Env) (ty : Ty) (v : Val) :
+    gsize env1 ty (restrict env1 ty v) ≤ vsize v :=
+  gsize_restrict_le env1 v ty
 
 /-! ### C. The guard cannot be dropped -/
 
@@ -100,7 +110,20 @@ theorem cxVal_wt : wt cxEnv2 (.ref 2) cxVal := by
   simp only [wtStruct]
   refine ⟨⟨0, _, rfl, rfl, ?_, by decide⟩, by simp [wt], trivial⟩
   simp only [wtMsg, cxEnv2, List.find?]
-  exact ⟨by decide, by decide, ⟨_, rfl, by simp [wt]⟩, by decide, by decide, ⟨_, rfl, by simp [wt]⟩, trivial⟩
+  exact ⟨by decide, by decide, ⟨_, rfl, rfl, by simp [wt]⟩, by decide, by decide, ⟨_, rfl, rfl, by simp [wt]⟩, trivial⟩
+
+/-- `Inner{m: Ev{a: 1, b: 2}, after: 3}`, the nested struct of `cxVal`, as a record of its own. -/
+def cxInner : Val := .struct [.msg [(1, .scalar 4 1), (2, .scalar 4 2)], .scalar 4 3]
+
+theorem cxInner_wt : wt cxEnv2 (.ref 1) cxInner := by
+  have := cxVal_wt
+  simp only [cxVal, wt] at this
+  obtain ⟨n, tys, hn, htys, hs⟩ := this
+  cases hn
+  simp only [cxEnv2, List.getElem?_cons_succ, List.getElem?_cons_zero, Option.some.injEq, Def.struct.injEq] at htys
+  subst htys
+  simp only [wtStruct] at hs
+  exact hs.1
 
 /-- An evolved message inside a NESTED struct: all hypotheses of `C04_unmarshal_evolved_partial` except the
     guard hold (`cxEnv1_ok`, `cx_extends`, `cxVal_wt`), and both byte-slice decoders return nil with a WRONG
@@ -125,7 +148,7 @@ theorem C04_nested_struct_counterexample :
   · rw [h1, h3]; simp
   · rw [h2, h3]; simp
   · intro hs
-    have hsz : vsize (restrict cxEnv1 (.ref 1) (.struct [.msg [(1, .scalar 4 1), (2, .scalar 4 2)], .scalar 4 3]))
+    have hsz : gsize cxEnv1 (.ref 1) (restrict cxEnv1 (.ref 1) (.struct [.msg [(1, .scalar 4 1), (2, .scalar 4 2)], .scalar 4 3]))
         = vsize (.struct [.msg [(1, .scalar 4 1), (2, .scalar 4 2)], .scalar 4 3]) := by
       simp only [TopStable, cxVal, cxEnv1, List.getElem?_cons_succ, List.getElem?_cons_zero, stableStruct,
         StructsStable] at hs
@@ -140,15 +163,7 @@ theorem C04_nested_struct_counterexample :
 example (safe : Bool) (rest : List Byte) :
     unmarshal 10 cxEnv1 safe 1 (enc (.struct [.msg [(1, .scalar 4 1), (2, .scalar 4 2)], .scalar 4 3]) ++ rest)
       = .ok (.struct [.msg [(1, .scalar 4 1)], .scalar 4 3]) := by
-  have hw : wt cxEnv2 (.ref 1) (.struct [.msg [(1, .scalar 4 1), (2, .scalar 4 2)], .scalar 4 3]) := by
-    have := cxVal_wt
-    simp only [cxVal, wt] at this
-    obtain ⟨n, tys, hn, htys, hs⟩ := this
-    cases hn
-    simp only [cxEnv2, List.getElem?_cons_succ, List.getElem?_cons_zero, Option.some.injEq, Def.struct.injEq] at htys
-    subst htys
-    simp only [wtStruct] at hs
-    exact hs.1
+  have hw : wt cxEnv2 (.ref 1) (.struct [.msg [(1, .scalar 4 1), (2, .scalar 4 2)], .scalar 4 3]) := cxInner_wt
   have hs : TopStable cxEnv1 1 (.struct [.msg [(1, .scalar 4 1), (2, .scalar 4 2)], .scalar 4 3]) := by
     simp [TopStable, cxEnv1, StructsStable, stableStruct, stableFields]
   exact C04_unmarshal_evolved_partial cxEnv1 cxEnv2 cxEnv1_ok cx_extends 1 _ safe 10 hw hs (by decide) rest
@@ -165,20 +180,28 @@ theorem C04_restrict_self (env : Env) (ty : Ty) (v : Val) (hw : wt env ty v) : r
   restrict_self env ty v hw
 
 /-- A peer still transmitting fields the reader has marked deprecated (schemas equal up to `deprecated`
-    flags, stated as extension in both directions): all three decoders return the value unchanged, the
-    deprecated fields included; no guard is needed. -/
+    flags, stated as extension in both directions): DecodeBebop returns the value unchanged, the deprecated
+    fields included, with no guard; the two byte-slice decoders do so under the guard `TopStable env1 n v`.
+
+    CHANGED with the corrected `Size()` (`gsize`, which skips the fields the reader marks deprecated): the
+    slice half used to be stated without a guard.  That was an artefact of the model counting deprecated
+    fields in `Size()`.  The generated code steps over a nested STRUCT by its `Size()`; a deprecated field
+    the peer still sends makes that smaller than the struct's bytes on the wire, and whatever follows the
+    struct is read from the wrong place — `C04_deprecated_nested_struct_counterexample`.  The guard holds
+    whenever no such field sits inside a struct in nested position (messages that are the top-level record
+    or reached from it through arrays / maps / messages / unions / the top-level struct's own fields are
+    fine: they are stepped over by the length prefix). -/
 theorem C04_deprecated_still_decoded (env1 env2 : Env) (hE1 : EnvOk env1) (hx : Extends env1 env2)
     (hx' : Extends env2 env1) (n : Nat) (v : Val) (hw : wt env2 (.ref n) v) (f : Nat) (hf : rank v < f + 1)
     (rest : List Byte) :
     decodeStream (f+1) env1 n (enc v ++ rest) = .ok v (enc v).length ∧
-    ∀ safe, unmarshal f env1 safe n (enc v ++ rest) = .ok v := by
+    (TopStable env1 n v → ∀ safe, unmarshal f env1 safe n (enc v ++ rest) = .ok v) := by
   have hid := restrict_id_of_known env1 env2 hx' v (.ref n) hw
   constructor
   · have := C04_decode_evolved env1 env2 hE1 hx n v hw (f+1) (by omega) rest
     rwa [hid] at this
-  · intro safe
-    have := C04_unmarshal_evolved_partial env1 env2 hE1 hx n v safe f hw
-      (topStable_of_known env1 env2 hx' n v hw) hf rest
+  · intro hs safe
+    have := C04_unmarshal_evolved_partial env1 env2 hE1 hx n v safe f hw hs hf rest
     rwa [hid] at this
 
 /-- With `env1 = env2` the evolution theorems are the round-trip theorems of C01 / C05. -/
@@ -186,20 +209,64 @@ theorem C04_same_schema_roundtrip (env : Env) (hE : EnvOk env) (n : Nat) (v : Va
     (f : Nat) (hf : rank v < f + 1) (rest : List Byte) :
     decodeStream (f+1) env n (enc v ++ rest) = .ok v (enc v).length ∧
     ∀ safe, unmarshal f env safe n (enc v ++ rest) = .ok v :=
-  C04_deprecated_still_decoded env env hE (Extends.refl env) (Extends.refl env) n v hw f hf rest
+  have h := C04_deprecated_still_decoded env env hE (Extends.refl env) (Extends.refl env) n v hw f hf rest
+  ⟨h.1, h.2 (topStable_self env n v hw)⟩
 
 /-- Concrete instance: the reader has marked field 2 of `Ev` deprecated, the peer still sends it. -/
 def depEnv1 : Env :=
   [.msg [⟨1, .scalar 4, false⟩, ⟨2, .scalar 4, true⟩], .struct [.ref 0, .scalar 4], .struct [.ref 1, .scalar 4]]
 
-example (safe : Bool) (rest : List Byte) : unmarshal 10 depEnv1 safe 2 (enc cxVal ++ rest) = .ok cxVal := by
-  have hE : EnvOk depEnv1 := by
-    intro d hd
-    simp [depEnv1] at hd
-    rcases hd with rfl | rfl | rfl <;> simp [DefOk]
-  have hx : Extends depEnv1 cxEnv2 := ⟨DefExtends.msg_of_mem (by decide), rfl, rfl, trivial⟩
-  have hx' : Extends cxEnv2 depEnv1 := ⟨DefExtends.msg_of_mem (by decide), rfl, rfl, trivial⟩
-  exact (C04_deprecated_still_decoded depEnv1 cxEnv2 hE hx hx' 2 cxVal cxVal_wt 10 (by decide) rest).2 safe
+theorem depEnv1_ok : EnvOk depEnv1 := by
+  intro d hd
+  simp [depEnv1] at hd
+  rcases hd with rfl | rfl | rfl <;> simp [DefOk]
+
+theorem dep_extends : Extends depEnv1 cxEnv2 := ⟨DefExtends.msg_of_mem (by decide), rfl, rfl, trivial⟩
+theorem dep_extends' : Extends cxEnv2 depEnv1 := ⟨DefExtends.msg_of_mem (by decide), rfl, rfl, trivial⟩
+
+/-- `Inner{m: Ev{a, b}, after}` as the top-level record: the message with the deprecated field sits directly
+    in the top-level struct, the guard holds, and both slice decoders return the value with `b` and with
+    `after` intact. -/
+example (safe : Bool) (rest : List Byte) : unmarshal 10 depEnv1 safe 1 (enc cxInner ++ rest) = .ok cxInner := by
+  have hs : TopStable depEnv1 1 cxInner := by
+    simp [TopStable, cxInner, depEnv1, StructsStable, stableStruct, stableFields]
+  exact (C04_deprecated_still_decoded depEnv1 cxEnv2 depEnv1_ok dep_extends dep_extends' 1 cxInner cxInner_wt 10
+    (by decide) rest).2 hs safe
+
+/-- The guard of `C04_deprecated_still_decoded` cannot be dropped: the same `Inner` as a NESTED struct of
+    `Outer`.  All other hypotheses hold (`depEnv1_ok`, `dep_extends`, `dep_extends'`, `cxVal_wt`); both
+    byte-slice decoders return nil with a WRONG value: `Inner` is decoded correctly, deprecated `b`
+    included, but `Outer` steps over it by `Inner.Size()`, which leaves `b` out (14 instead of 19 bytes),
+    and reads `tail` from the middle of it: 768 instead of 4.  DecodeBebop gets the same bytes right.
+    (With the earlier model, whose `Size()` counted deprecated fields, the slice decoders were — wrongly —
+    predicted to return `cxVal` here.) -/
+theorem C04_deprecated_nested_struct_counterexample :
+    unmarshal 10 depEnv1 true 2 (enc cxVal)
+      = .ok (.struct [.struct [.msg [(1, .scalar 4 1), (2, .scalar 4 2)], .scalar 4 3], .scalar 4 768]) ∧
+    unmarshal 10 depEnv1 false 2 (enc cxVal)
+      = .ok (.struct [.struct [.msg [(1, .scalar 4 1), (2, .scalar 4 2)], .scalar 4 3], .scalar 4 768]) ∧
+    unmarshal 10 depEnv1 true 2 (enc cxVal) ≠ .ok cxVal ∧
+    unmarshal 10 depEnv1 false 2 (enc cxVal) ≠ .ok cxVal ∧
+    gsize depEnv1 (.ref 1) cxInner = 14 ∧ vsize cxInner = 19 ∧
+    ¬ TopStable depEnv1 2 cxVal ∧
+    decodeStream 10 depEnv1 2 (enc cxVal) = .ok cxVal (enc cxVal).length := by
+  have h1 : unmarshal 10 depEnv1 true 2 (enc cxVal)
+      = .ok (.struct [.struct [.msg [(1, .scalar 4 1), (2, .scalar 4 2)], .scalar 4 3], .scalar 4 768]) := by rfl
+  have h2 : unmarshal 10 depEnv1 false 2 (enc cxVal)
+      = .ok (.struct [.struct [.msg [(1, .scalar 4 1), (2, .scalar 4 2)], .scalar 4 3], .scalar 4 768]) := by rfl
+  refine ⟨h1, h2, ?_, ?_, by decide, by decide, ?_, ?_⟩
+  · rw [h1]; simp [cxVal]
+  · rw [h2]; simp [cxVal]
+  · intro hs
+    have hsz : gsize depEnv1 (.ref 1) (restrict depEnv1 (.ref 1) (.struct [.msg [(1, .scalar 4 1), (2, .scalar 4 2)], .scalar 4 3]))
+        = vsize (.struct [.msg [(1, .scalar 4 1), (2, .scalar 4 2)], .scalar 4 3]) := by
+      simp only [TopStable, cxVal, depEnv1, List.getElem?_cons_succ, List.getElem?_cons_zero, stableStruct,
+        StructsStable] at hs
+      exact hs.1.1
+    revert hsz
+    decide
+  · exact (C04_deprecated_still_decoded depEnv1 cxEnv2 depEnv1_ok dep_extends dep_extends' 2 cxVal cxVal_wt 9
+      (by decide) []).1 |> (by simpa using ·)
 
 /-! ### E. Non-vacuity: an evolved message in an array inside a message -/
 
@@ -226,15 +293,15 @@ theorem ev_extends : Extends evEnv1 evEnv2 :=
 theorem evVal_wt : wt evEnv2 (.ref 1) evVal := by
   refine ⟨1, _, rfl, rfl, ?_, by decide⟩
   simp only [wtMsg, evEnv2, List.find?]
-  refine ⟨by decide, by decide, ⟨_, rfl, ?_⟩, by decide, by decide, ⟨_, rfl, by simp [wt]⟩, by decide, by decide,
-    ⟨_, rfl, by simp [wt]⟩, trivial⟩
+  refine ⟨by decide, by decide, ⟨_, rfl, rfl, ?_⟩, by decide, by decide, ⟨_, rfl, rfl, by simp [wt]⟩, by decide, by decide,
+    ⟨_, rfl, rfl, by simp [wt]⟩, trivial⟩
   refine ⟨_, rfl, by decide, ⟨?_, ?_, trivial⟩, Or.inl (by decide)⟩
   · refine ⟨0, _, rfl, rfl, ?_, by decide⟩
     simp only [wtMsg, List.find?]
-    exact ⟨by decide, by decide, ⟨_, rfl, by simp [wt]⟩, by decide, by decide, ⟨_, rfl, by simp [wt]⟩, trivial⟩
+    exact ⟨by decide, by decide, ⟨_, rfl, rfl, by simp [wt]⟩, by decide, by decide, ⟨_, rfl, rfl, by simp [wt]⟩, trivial⟩
   · refine ⟨0, _, rfl, rfl, ?_, by decide⟩
     simp only [wtMsg, List.find?]
-    exact ⟨by decide, by decide, ⟨_, rfl, by simp [wt]⟩, trivial⟩
+    exact ⟨by decide, by decide, ⟨_, rfl, rfl, by simp [wt]⟩, trivial⟩
 
 theorem evVal_stable : TopStable evEnv1 1 evVal := by
   simp [TopStable, evVal, evEnv1, StructsStable, stableFields, stableList]
